@@ -68,6 +68,10 @@ func NewBaseJobWorker(ctx context.Context, semSize int64) (*BaseJobWorker, error
 		}
 
 		if err := sem.Acquire(wk.newJobCtx(), 1); err != nil {
+			if cerr := context.Cause(wk.newJobCtx()); cerr != nil {
+				return errors.WithStack(cerr)
+			}
+
 			return errors.WithStack(err)
 		}
 
